@@ -479,7 +479,9 @@ class Gen:
             if any(x["kind"] == kind and x["resource"] == i["resource"] for x in spec["indicators"]):
                 return None
         elif kind == "ResourceIdle":
-            rs = self._assigned_resources(minbusy=1, allow_cumulative=False)
+            # (a worker with a single busy interval makes the constructor raise
+            #  "assertion And already added": two empty orderings hash alike - C18 matter)
+            rs = self._assigned_resources(minbusy=2, allow_cumulative=False)
             if not rs:
                 return None
             i["resource"] = rng.choice(rs)
